@@ -59,10 +59,10 @@ def model_line(scenario, kind='rat'):
 
 
 def parse_reply(reply):
-    trace, outcome, final, unfinished = reply.split('|')
+    trace, outcome, final, unfinished, obs = reply.split('|')
     events = [e for e in trace.split(';') if e]
     return {'events': events, 'outcome': outcome, 'final': final,
-            'unfinished': sorted(int(x) for x in unfinished.split(',') if x)}
+            'unfinished': sorted(int(x) for x in unfinished.split(',') if x), 'obs': obs}
 
 
 # ------------------------------------------------------------------------------------------------
@@ -99,6 +99,9 @@ class Interp:
         self.task_index = {}
         self.task_by_label = {}
         self.nested_unfinished = set()
+        self.pending_awaits = {}
+        self.scope_insts = 0
+        self.scope_inst_of = {}
         self.started = set()
 
         class A(Exception):
@@ -242,7 +245,13 @@ class Interp:
         elif h == 'sleep':
             await (time + self.tv(s[1]))
         elif h == 'await':
-            await self.cond(s[1])
+            c = self.cond(s[1])
+            self.pending_awaits[label] = self.pending_awaits.get(label, []) + [c]
+            try:
+                await c
+            finally:
+                self.pending_awaits[label].pop()
+            self.emit(label, 'awaited', [1 if c else 0])
         elif h == 'set':
             await self.flags[s[1]].set(bool(s[2]))
         elif h == 'scope':
@@ -253,9 +262,21 @@ class Interp:
                 sc = until(self.cond(n[1]))
             else:
                 sc = until(time + self.tv(n[1]))
-            async with sc as scope:
-                self.scopes[name] = scope
-                await self.block(label, body)
+            inst = [None]
+            try:
+                async with sc as scope:
+                    self.scopes[name] = scope
+                    inst[0] = self.scope_insts
+                    self.scope_insts += 1
+                    self.scope_inst_of[id(scope)] = inst[0]
+                    self.emit(label, 'senter', [name, inst[0]])
+                    await self.block(label, body)
+            except BaseException:
+                if inst[0] is not None:
+                    self.emit(label, 'sexit', [name, inst[0], 1])
+                raise
+            else:
+                self.emit(label, 'sexit', [name, inst[0], 0])
         elif h == 'spawn':
             _, scn, tkn, after, at, vol, prog = s
             scope = self.scopes.get(scn)
@@ -275,6 +296,7 @@ class Interp:
             self.task_index[id(task)] = self.task_count
             self.task_count += 1
             self.tasks[tkn] = task
+            self.emit(label, 'spawn', [self.scope_inst_of.get(id(scope), -1), holder['label'], 1 if vol else 0])
             self.task_by_label[holder['label']] = task
             holder['task'] = task
         elif h == 'cancel':
@@ -323,13 +345,24 @@ class Interp:
         elif h == 'ret':
             raise _Ret(s[1])
         elif h == 'lock':
+            self.emit(label, 'lreq', [s[1]])
             async with self.locks[s[1]]:
-                await self.block(label, s[2:])
+                self.emit(label, 'lenter', [s[1]])
+                try:
+                    await self.block(label, s[2:])
+                finally:
+                    self.emit(label, 'lexit', [s[1]])
         elif h == 'avail':
             self.emit(label, 'avail', [1 if self.locks[s[1]].available else 0])
         elif h == 'qput':
-            await self.queues[s[1]].put(s[2])
+            self.emit(label, 'putreq', [s[1], s[2]])
+            try:
+                await self.queues[s[1]].put(s[2])
+            except self.usim.StreamClosed:
+                self.emit(label, 'putrej', [s[1], s[2]])
+                raise
         elif h == 'qget':
+            self.emit(label, 'getreq', [s[1]])
             v = await self.queues[s[1]]
             self.emit(label, 'got', [v])
         elif h == 'qclose':
@@ -344,14 +377,21 @@ class Interp:
                     if n >= s[2]:
                         break
         elif h == 'cput':
-            await self.chans[s[1]].put(s[2])
+            self.emit(label, 'cputreq', [s[1], s[2]])
+            try:
+                await self.chans[s[1]].put(s[2])
+            except self.usim.StreamClosed:
+                self.emit(label, 'cputrej', [s[1], s[2]])
+                raise
         elif h == 'cget':
+            self.emit(label, 'csub', [s[1], 0])
             v = await self.chans[s[1]]
             self.emit(label, 'got', [v])
         elif h == 'cclose':
             await self.chans[s[1]].close()
         elif h == 'citer':
             n = 0
+            self.emit(label, 'csub', [s[1], 1])
             if s[2] > 0:
                 # an abandoned iteration (break / exception) is finalised by CPython's reference
                 # counting; when exactly the consumer's buffer disappears is not observable
@@ -361,19 +401,30 @@ class Interp:
                     n += 1
                     if n >= s[2]:
                         break
+                else:
+                    self.emit(label, 'cend', [s[1]])
         elif h == 'settracked':
             await self.tracked[s[1]].set(s[2])
         elif h == 'addtracked':
             await (self.tracked[s[1]] + s[2])
         elif h in ('borrow', 'claim'):
+            self.emit(label, 'breq', [s[1]] + list(s[2]))
             r = self.res.get(s[1])
             if r is None:
                 self.emit(label, 'unbound')
+                self.emit(label, 'bexit', [s[1], 0])
                 return
-            cm = (r.borrow if h == 'borrow' else r.claim)(**self.amounts(s[2]))
-            self.res[s[3]] = cm
-            async with cm:
-                await self.block(label, s[4:])
+            try:
+                cm = (r.borrow if h == 'borrow' else r.claim)(**self.amounts(s[2]))
+                self.res[s[3]] = cm
+                async with cm:
+                    self.emit(label, 'benter', list(s[2]))
+                    await self.block(label, s[4:])
+            except BaseException:
+                self.emit(label, 'bexit', [s[1], 1])
+                raise
+            else:
+                self.emit(label, 'bexit', [s[1], 0])
         elif h == 'reschange':
             r = self.res.get(s[1])
             if r is None:
@@ -392,7 +443,14 @@ class Interp:
             else:
                 self.emit(label, 'levels', [v for _, v in r.levels])
         elif h == 'transfer':
-            await self.pipes[s[1]].transfer(self.tv(s[2]), None if s[3] is None else self.tv(s[3]))
+            self.emit(label, 'tstart', [s[1]])
+            try:
+                await self.pipes[s[1]].transfer(self.tv(s[2]), None if s[3] is None else self.tv(s[3]))
+            except BaseException:
+                self.emit(label, 'tabort', [s[1]])
+                raise
+            else:
+                self.emit(label, 'tdone', [s[1]])
         elif h in ('interval', 'delayiter'):
             from usim import interval, delay
             n = 0
@@ -422,10 +480,11 @@ class Interp:
             base = 10000 + self.nested_base()
             inner = [self.root(base + i, p[1:]) for i, p in enumerate(progs)]
             self.labels |= {base + i for i in range(len(progs))}
+            before = (self.labels & self.started) - self.finished
             try:
                 run(*inner, start=self.tv(s[1]))
             finally:
-                stuck = {base + i for i in range(len(progs))} - self.finished
+                stuck = ((self.labels & self.started) - self.finished) - before
                 self.nested_unfinished |= stuck
                 for c in inner:
                     c.close()
@@ -444,6 +503,10 @@ class Interp:
             for c in coros:
                 c.close()
             _ = base
+
+    def order_of(self, label):
+        # the model lists activities in creation order: roots, then tasks by id, nested roots
+        return label
 
     def nested_base(self):
         self.nested_count = getattr(self, 'nested_count', 0)
@@ -507,11 +570,25 @@ class Interp:
         except BaseException as e:    # noqa
             outcome = 'crash ' + ','.join(str(x) for x in self.exn_code(e))
         finally:
-            self.ended = True
+            pass
+        if outcome == 'ok':
+            # waiters whose condition holds although nothing will wake them any more
+            from usim._core.handler import __USIM_STATE__
+            with __USIM_STATE__.assign(loop):
+                for lb in sorted(self.pending_awaits, key=lambda x: (self.order_of(x))):
+                    for c in self.pending_awaits[lb]:
+                        if c:
+                            self.events.append('%s:%d:%d:stuck:' % (t2s(loop.time, self.kind), loop.turn, lb))
+        self.ended = True
+        nl = self.num('locks', 0)
+        obs = 'locks=%s/levels=%s/queues=%s' % (
+            ','.join('1' if lk._owner is None else '0' for lk in self.locks[:nl]),
+            ';'.join(','.join(str(v) for _, v in self.res[i].levels) for i in range(len(self.fields.get('resources', [])))),
+            ','.join(str(len(q._buffer)) for q in self.queues))
         # unfinished = activities whose own code started but has not ended
         unfinished = sorted(((self.labels & self.started) - self.finished) | self.nested_unfinished)
         result = {'events': self.events, 'outcome': outcome, 'final': t2s(loop.time, self.kind),
-                  'unfinished': unfinished, 'activations': loop.verif_count}
+                  'unfinished': unfinished, 'activations': loop.verif_count, 'obs': obs}
         # finalise leftovers now (inside no loop; nothing is recorded any more)
         for c in coros:
             try:
